@@ -105,7 +105,13 @@ fn apply_edit(lines: &[Vec<String>], e: &Value) -> String {
     let mut ls: Vec<Vec<String>> = lines.to_vec();
     let ln = e["line"].as_u64().unwrap() as usize;
     let fd = e["field"].as_u64().unwrap() as usize;
-    let tok = e["tok"].as_str().unwrap().to_string();
+    let mut tok = e["tok"].as_str().unwrap().to_string();
+    if let Some(rel) = tok.strip_prefix('@') {
+        // relative token: W = declared wire count, G = declared gate count of the base file's header
+        let hdr = |i: usize| lines.first().and_then(|l| l.get(i)).and_then(|s| s.parse::<i64>().ok()).unwrap_or(0);
+        let (base, off) = (if rel.starts_with('W') { hdr(1) } else { hdr(0) }, rel[1..].parse::<i64>().unwrap_or(0));
+        tok = (base + off).to_string();
+    }
     match e["k"].as_str().unwrap() {
         "subst" => { if ln >= 1 && ln <= ls.len() && fd >= 1 && fd <= ls[ln - 1].len() { ls[ln - 1][fd - 1] = tok; } }
         "insert" => { if ln >= 1 && ln <= ls.len() { let p = (fd - 1).min(ls[ln - 1].len()); ls[ln - 1].insert(p, tok); } }
